@@ -98,6 +98,36 @@ class Report:
             if not c.assumed and per_fn.get(c.key, 0) == 0:
                 self.errors.append(f"{c.name}: zero obligations generated")
 
+    def add_lemmas(self, obls, fallback=None):
+        """glue lemmas over the contracts (closed formulas), discharged by the same back ends"""
+        from pyvc import solve
+        res = solve.discharge(obls, second=(self.tier == "thorough"))
+        for o in obls:
+            r, backend, t, info, agree = res[o.name]
+            rec = {"name": o.name, "kind": "lemma", "result": r, "backend": backend, "seconds": round(t, 3),
+                   "info": info if r != "unsat" else "", "agree": agree, "witness": None, "contract": "lemma", "case": "-"}
+            self.obligations.append(rec)
+            if r != "unsat":
+                self._failed_obligation(rec, fallback)
+
+    def add_records(self, records, what="frame"):
+        """obligation records produced by another deductive checker (e.g. the frame analysis)"""
+        for r in records:
+            res = {"discharged": "unsat", "failed": "sat", "undecided": "unknown"}[r["result"]]
+            rec = {"name": r["name"], "kind": what, "result": res, "backend": r.get("backend", "frame-check"),
+                   "seconds": r.get("seconds", 0.0), "info": r.get("detail", ""), "agree": None, "witness": None,
+                   "contract": r.get("function", what), "case": "-"}
+            self.obligations.append(rec)
+            if res == "unsat":
+                continue
+            if self._is_known(rec["name"]):
+                continue
+            if res == "sat":
+                self.violations.append({"what": rec["name"], "obligation": rec, "native": r.get("native"),
+                                        "suffix": "" if r.get("native") else " no-failing-input-found"})
+            else:
+                self.undecided.append(f"{rec['name']}: {rec['info']}")
+
     def _failed_obligation(self, rec, fallback):
         native = None
         if fallback is not None:
